@@ -4,6 +4,7 @@ Property theorems only. Every byte-level fact is closed by `decide +kernel` over
 whole finite table (256 entries) and lifted to `UInt8`.
 -/
 import OAP.Model.Handshake
+import OAP.Proofs.GenFuncs
 namespace OAP.C18
 open OAP OAP.Handshake
 
@@ -114,5 +115,34 @@ example : ({ version := 2, codec := 1, platform := 9, reserve := 5 } : Handshake
 example : unpack (pack { version := 2, codec := 1, platform := 9, reserve := 5 })
     = .ok { version := 2, codec := 1, platform := 9, reserve := 5 } := by decide
 example : pack { version := 1, codec := 1, platform := 9, reserve := 0 } = [0x11, 0x09] := by decide
+
+/-! ### the model IS the code's function: generated translations (T2, function level)
+
+`Gen.Fn.protocol_Handshake_Pack` / `_Unpack` are rewritten from go/protocol.go by every run (statement by statement: the two
+byte expressions, the length test, the four masked field assignments with their index operations); the theorems above are about
+`Handshake.pack` / `Handshake.unpack`, and these two say they are the same functions. -/
+
+/-- `func (h Handshake) Pack() []byte`, as translated from the source, is the model's `pack` -/
+theorem pack_is_generated (h : Handshake) :
+    Gen.Fn.protocol_Handshake_Pack (GenFuncs.hsG h) = .ok (pack h) :=
+  GenFuncs.handshake_pack_gen h
+
+/-- `func (h *Handshake) Unpack(data []byte) error`, as translated from the source (whatever the receiver held before), is the
+model's `unpack`: same verdict, same error, same four fields, no index out of range -/
+theorem unpack_is_generated (g0 : Gen.Fn.GHandshake) (data : Bytes) :
+    (Gen.Fn.protocol_Handshake_Unpack g0 data).map GenFuncs.hsM = unpack data :=
+  GenFuncs.handshake_unpack_gen g0 data
+
+/-- hence the bijection theorems hold of the translated functions themselves -/
+theorem generated_unpack_pack (h : Handshake) (g0 : Gen.Fn.GHandshake) (hw : h.WF) :
+    (Gen.Fn.protocol_Handshake_Pack (GenFuncs.hsG h)).bind (fun bs => (Gen.Fn.protocol_Handshake_Unpack g0 bs).map GenFuncs.hsM) = .ok h := by
+  rw [pack_is_generated]; show (Gen.Fn.protocol_Handshake_Unpack g0 (pack h)).map GenFuncs.hsM = .ok h
+  rw [unpack_is_generated]; exact unpack_pack h hw
+
+/-- the functions the extractor managed to translate in this run (a function that leaves the translatable subset disappears here) -/
+theorem functions_translated :
+    Gen.Fn.translated = ["protocol.Handshake.Pack", "protocol.Handshake.Unpack", "protocol..unmarshalStringLength", "protocol..marshalString",
+      "v1.Header.IsUnknownPacket", "v1.Header.length", "v1.Header.Pack", "v1.Header.UnpackBytes",
+      "v2.Header.length", "v2.Header.Pack", "v2.Header.UnpackBytes"] := by decide
 
 end OAP.C18
